@@ -135,8 +135,23 @@ pub fn run_history(r: &mut Rng, cfg: &Cfg, log: &mut Vec<String>) -> Result<Stat
             0..=2 => {
                 name = "construct";
                 let (neg, l) = fresh(r, cfg.max_limbs);
-                let how = r.below(5);
+                let how = r.below(6);
+                let mut model = int(neg, &l);
                 p[i] = match how {
+                    5 => {
+                        // mask constructor: all-ones values whose bit count sits on / next to word boundaries
+                        // (the inline/heap decision of `ones` is made from the bit count, not from a buffer)
+                        let wb = Word::BITS as usize;
+                        let n = match r.below(4) {
+                            0 => r.usize(5) * wb,
+                            1 => (r.usize(5) * wb + 1).saturating_sub(r.usize(3)),
+                            2 => r.usize(5) * 64 + r.usize(3),
+                            _ => r.usize(330),
+                        };
+                        let mag: BigInt = (BigInt::from(1) << n) - 1;
+                        model = if neg { -mag } else { mag };
+                        IBig::from_parts(if neg { Sign::Negative } else { Sign::Positive }, UBig::ones(n))
+                    }
                     0 => ibig(neg, &l),
                     1 => {
                         let bytes = int(neg, &l).to_signed_bytes_le();
@@ -162,7 +177,7 @@ pub fn run_history(r: &mut Rng, cfg: &Cfg, log: &mut Vec<String>) -> Result<Stat
                         }
                     }
                 };
-                q[i] = int(neg, &l);
+                q[i] = model;
                 log.push(format!("{}: p[{}] = construct{}({})", step, i, how, show_int(&q[i])));
             }
             3..=5 => bin!("add", +),
